@@ -96,7 +96,7 @@ PROPS = {
         "rule": "one evaluation = one simulated run of the whole daemon: 1..3 client connections issue hostile encode/decode/read/write/find commands (overflowing, malformed, unknown types) interleaved with probe commands whose result a pristine instance gives (reference codec); the simulated kernel additionally leaves errno clobbered after successful calls. Non-trivial = at least one probe judged; distinct = distinct trace hashes among those.",
         "components": {"real": ["whole daemon except main()"], "stub": ["as C09"]},
         "assumptions": ASSUME_COMMON + ["history independence is decided for the operations that pass through the daemon; leakage between two fields of one pure call is not covered"]},
-    "C16": {"families": ["c16"], "runs": {"quick": 15000, "thorough": 300000}, "level": "exploration", "timeout_ms": 30000,
+    "C16": {"families": ["c16"] * 3 + ["c16v"], "runs": {"quick": 15000, "thorough": 300000}, "level": "exploration", "timeout_ms": 30000,
         "rule": "one evaluation = one simulated run of the whole daemon with a generated ACL (users, default levels, level names that are prefixes/suffixes/infixes of each other, '*'), levelled messages, and 2..5 interleaved TCP sessions (auth right/wrong/unknown, read/write by name with and without circuit, hex forms, read -p) plus HTTP /data requests with user and secret. Non-trivial = at least one command judged; distinct = distinct trace hashes.",
         "components": {"real": ["whole daemon except main()"], "stub": ["as C09"]},
         "assumptions": ASSUME_COMMON + ["the hex command (--enablehex) and find -l are outside the statement"]},
@@ -105,7 +105,7 @@ PROPS = {
         "components": {"real": ["whole daemon except main()"], "stub": ["as C09"]},
         "assumptions": ASSUME_COMMON + ["pipelined TCP command lines are not generated (the client protocol is request/response)", "invalid percent escapes are not judged"]},
     # sanitizers and watchdogs watch every family
-    "C20": {"families": ["c20"] * 10 + ["c20s"] * 4 + ["c14e", "c14e", "c14e", "c14p", "c01a", "c01b", "c15", "c04", "c04s", "c04s", "c04s", "c04s", "c09", "c12", "c12o", "c16", "c18t", "c18h", "c18m", "c13", "c17", "c09w", "c09s", "c09f", "c02", "c03"], "runs": {"quick": 20000, "thorough": 300000}, "level": "exploration", "timeout_ms": 30000,
+    "C20": {"families": ["c20"] * 10 + ["c20s"] * 4 + ["c14e", "c14e", "c14e", "c14p", "c01a", "c01b", "c15", "c04", "c04s", "c04s", "c04s", "c04s", "c09", "c12", "c12o", "c16", "c16v", "c18t", "c18h", "c18m", "c13", "c17", "c09w", "c09s", "c09f", "c02", "c03"], "runs": {"quick": 20000, "thorough": 300000}, "level": "exploration", "timeout_ms": 30000,
         "claims": ["C20"],
         "rule": "one evaluation = one simulated run under ASan+UBSan: (c20) whole daemon with garbage command lines, HTTP requests, definition text through define/read -def/decode/encode, garbage symbols on the bus, then valid probes that must still be answered correctly; (c14e) arbitrary adapter frames; (c01a, c15) arbitrary bus traffic with and without registered answers. Any sanitizer report, abort, deadlock, step budget overrun or wrong probe result is a violation. Non-trivial as in the families; distinct = distinct trace hashes.",
         "components": {"real": ["whole daemon except main() (c20); protocol stack (c01a, c15); device layer (c14e)"], "stub": ["as C09"]},
